@@ -166,11 +166,25 @@ RegFails(s, e) ==
 \cup F("Reg.NoSetupWhenRejected",
        e.ok \/ e.setupbeh = "raise" \/ e.setupcalls = 0)
 
+(* What a failed registration leaves behind is not documented, except that *)
+(* the validation of the namespaces and of the provider itself (process    *)
+(* steps 1-2) precedes "adding the provider to the registry" (step 4): a   *)
+(* provider / namespaces argument that is refused as such never becomes    *)
+(* active.  When the failure comes from a class that is missing in some    *)
+(* namespace (step 3, which the code interleaves with step 4 per           *)
+(* namespace) or from post_register_setup (step 5), the provider may or    *)
+(* may not have become active for its (namespace, class) pairs.            *)
+DescriptorBad(e) ==
+  \/ e.cn \in {"missing", "none", "int"} \/ NonStr \in Rng(e.pcls)
+  \/ e.ptype \notin PTypes \/ e.base # e.ptype
+  \/ e.nsarg = "int" \/ \E n \in Rng(RegNss(e)) : n \notin LiveNs
 RegApply(s, e) ==
   LET K == RegKeys(e) IN
   [reg |-> [k \in Keys |->
               IF k \notin K THEN s.reg[k]
-              ELSE IF e.ok THEN {e.pid} ELSE s.reg[k] \cup {e.pid}],
+              ELSE IF e.ok THEN {e.pid}
+              ELSE IF DescriptorBad(e) THEN s.reg[k]
+              ELSE s.reg[k] \cup {e.pid}],
    cls |-> {p \in Rng(e.clsdump) : p.ns \in LiveNs /\ p.c \in ClassTokens},
    store |-> Rng(e.dump)]
 
@@ -234,7 +248,8 @@ CreateFails(s, e) ==
 
 (*--------------------------- ModifyInstance ------------------------------*)
 GivenProps(e) == {"s"} \cup (IF e.givet THEN {"t"} ELSE {})
-PlBad(e) == e.haspl /\ \E p \in Rng(e.pl) : p \notin {"s", "t", "u", "k"}
+Exposed(c) == IF c = "B" THEN {"k", "s", "t", "u"} ELSE {"k", "s", "t"}
+PlBad(e) == e.haspl /\ \E p \in Rng(e.pl) : p \notin Exposed(e.cls)
 ModifyMust(s, e) ==
      C(e.defect = "clsmismatch", {E_INVALID_PARAMETER})
 \cup C(e.ns \notin LiveNs, {E_INVALID_NAMESPACE})
@@ -286,7 +301,10 @@ InvokeMust(s, e) ==
        /\ ~IsStatic(e.meth), AnyCode)
 \cup C(e.pdefect \in {"unknown", "wrongtype", "wrongarray", "outonly"},
        {E_INVALID_PARAMETER})
-InvokeMay(s, e) == C(e.pdefect = "omit", {E_INVALID_PARAMETER})
+InvokeMay(s, e) ==
+     C(e.pdefect = "omit", {E_INVALID_PARAMETER})
+     \* nobody serves the method: that error is as good as any other one
+\cup C(0 \in Cands(s, "meth", e), {E_METHOD_NOT_FOUND, E_METHOD_NOT_AVAILABLE})
 GoodRet(e) == e.beh \in {"seq", "mapv", "mapp", "list"}
 InvokeFails(s, e) ==
   LET must == InvokeMust(s, e)
